@@ -33,14 +33,16 @@ func doGetConfig(body json.RawMessage) interface{} {
 		return map[string]string{"error": "VERIF_CONFIG_BYTES not set"}
 	}
 	os.WriteFile(file, nil, 0o644)
-	repo, err := git.NewRepositoryFromGitDir("/nonexistent/fake.git")
-	if err != nil {
-		return map[string]string{"error": "opening repository through the fake git: " + err.Error()}
-	}
 	out := make([][]getConfigAns, len(rq.Listings))
 	for i, l := range rq.Listings {
 		if err := os.WriteFile(file, l.Bytes, 0o644); err != nil {
 			return map[string]string{"error": err.Error()}
+		}
+		// one Repository value per listing: a repository has one configuration during a run, and an
+		// implementation may read it once and keep it
+		repo, err := git.NewRepositoryFromGitDir("/nonexistent/fake.git")
+		if err != nil {
+			return map[string]string{"error": "opening repository through the fake git: " + err.Error()}
 		}
 		for _, p := range l.Prefixes {
 			var a getConfigAns
